@@ -98,7 +98,8 @@ def ops():
         'regexp_to_nfa': (['rx'], RA.regexp_to_nfa), 'regexp_simplify': (['rx'], RA.regexp_simplify),
         'regexp_accepts_word': (['rx', 'word'], RA.regexp_accepts_word), 'regexp_words_up_to_n': (['rx'], W(RA.regexp_words_up_to_n, 3)),
         'pda_accepts_word': (['pda', 'word'], PA.pda_accepts_word), 'pda_words_up_to_n': (['pda'], W(PA.pda_words_up_to_n, 2)),
-        'pda_to_push_pop': (['pda'], PA.pda_to_push_pop), 'pda_to_accept_on_empty_stack': (['pda'], PA.pda_to_accept_on_empty_stack),
+        'pda_to_push_pop': (['pda'], PA.pda_to_push_pop), 'pda_to_cfg': (['pda_small'], lambda P: PA.pda_to_cfg(P)),
+        'pda_to_cfg(aes)': (['pda_small'], lambda P: PA.pda_to_cfg(P, True)), 'pda_to_accept_on_empty_stack': (['pda'], PA.pda_to_accept_on_empty_stack),
         'print_pda': (['pda'], lambda P: sorted(PA.print_pda(P).split())),
         'tm_accepts_word': (['tm', 'word'], lambda T, w: TA.tm_accepts_word(T, w, 50)), 'tm_words_up_to_n': (['tm'], lambda T: TA.tm_words_up_to_n(T, 2, 50)),
         'print_tm': (['tm'], TA.print_tm),
@@ -121,11 +122,17 @@ def make_args(rng, kinds):
         elif k == 'nfa':
             spec[k] = gen.random_nfa(rng, 4, Sig)
         elif k == 'nfa2':
-            spec[k] = gen.random_nfa(rng, 3, Sig, spec['nfa']['eps'], lambda i: 'p%d' % i)
+            if rng.random() < 0.5:      # the SECOND operand carries generator-like names q0, q1, ...
+                spec['nfa'] = gen.random_nfa(rng, 4, Sig, spec['nfa']['eps'], lambda i: 's%d' % i, live=True)
+                spec[k] = gen.random_nfa(rng, 4, Sig, spec['nfa']['eps'], lambda i: 'q%d' % i, live=True)
+            else:
+                spec[k] = gen.random_nfa(rng, 3, Sig, spec['nfa']['eps'], lambda i: 'p%d' % i)
         elif k == 'rx':
             spec[k] = gen.random_regexp(rng, rng.randint(1, 6), Sig)
         elif k == 'pda':
             spec[k] = gen.random_pda(rng)
+        elif k == 'pda_small':
+            spec[k] = gen.random_pda(rng, nmax=2, tmax=3)
         elif k == 'tm':
             spec[k] = gen.random_tm(rng)
         elif k == 'cfg':
@@ -139,7 +146,7 @@ def make_args(rng, kinds):
     return spec
 
 
-BUILDERS = {'dfa': enc.build_dfa, 'dfa2': enc.build_dfa, 'nfa': enc.build_nfa, 'nfa2': enc.build_nfa, 'rx': enc.build_regexp,
+BUILDERS = {'pda_small': enc.build_pda, 'dfa': enc.build_dfa, 'dfa2': enc.build_dfa, 'nfa': enc.build_nfa, 'nfa2': enc.build_nfa, 'rx': enc.build_regexp,
             'pda': enc.build_pda, 'tm': enc.build_tm, 'cfg': enc.build_cfg, 'word': lambda x: x, 'state': lambda x: x}
 
 
@@ -170,7 +177,7 @@ def cases(ctx):
     table = ops()
     per = 12 if not thorough else 120
     for name in sorted(table):
-        for i in range(per):
+        for i in range(per * (8 if name in ('nfa_union', 'nfa_repetition', 'nfa_concatenation') else 1)):
             spec = make_args(rng, table[name][0])
             seed = rng.randrange(1 << 30)
             if not thorough or ctx.mine(i):
@@ -189,6 +196,10 @@ def judge(ctx, c, answers):
     try:
         args = [BUILDERS[k](c['args'][k]) for k in kinds]
         before = [snap(a) for a in args]
+        if c['op'] in ('nfa_union', 'nfa_repetition'):
+            # the default IdentifierGenerator is process-wide state: start from the state reached after a few earlier calls
+            NA.nfa_union.__defaults__[0].index = c['seed'] % 4
+            NA.nfa_repetition.__defaults__[0].index = c['seed'] % 4
         r1 = call(f, *args, limit=20)
         after = [snap(a) for a in args]
         if after != before:
@@ -219,7 +230,7 @@ def judge(ctx, c, answers):
                 ctx.violation('result-depends-on-' + tag, {'case': c, 'first': str(v1)[:300], 'other': str(v)[:300]})
         # stale state: modify the first argument in place (a legal edit), call again, compare with a fresh equal object
         k0 = kinds[0]
-        if k0 in ('dfa', 'nfa', 'pda', 'cfg') and named:
+        if k0 in ('dfa', 'nfa', 'pda', 'cfg') and named and not c['op'].startswith('pda_to_cfg'):
             spec2 = copy.deepcopy(c['args'])
             x = spec2[k0]
             args5 = [BUILDERS[k](c['args'][k]) for k in kinds]
